@@ -21,7 +21,80 @@ def run(ctx):
     ctx.exhaustive = True
     ctx.evaluate(K.eval_write, cases, label="corrupt-write", chunk=50)
     ctx.evaluate(K.eval_valid, K.enum_cases(), label="valid-write", chunk=50)
+    fresh_orders(ctx, cases)
 
 
-def replay(info):
-    return K.eval_valid(info["case"]) if info["kind"] == "valid-write" else K.eval_write(info["case"])
+def fresh_orders(ctx, cases):
+    """The same corruptions in FRESH interpreters whose first act is to validate (public validate()) the nodes of ONE kind of
+    the format's samples before anything else: validation state that depends on which class was validated first shows here."""
+    import json
+    import os
+    import subprocess
+    import tempfile
+    from . import samples
+    table = K.measured_nodes()
+    jobs = []
+    for fmt in samples.FORMATS:
+        kinds = sorted(set(k for s, ns in table.items() if s.startswith(fmt + "_") for n in ns for k in n["kinds"]))
+        mine = [c for c in cases if c["sample"].startswith(fmt + "_")]
+        for first in kinds:
+            jobs.append((fmt, first, mine))
+    running = []
+
+    def reap(block):
+        for item in list(running):
+            order, path, p = item
+            if not block and p.poll() is None:
+                continue
+            out, _ = p.communicate(timeout=1800)
+            running.remove(item)
+            os.unlink(path)
+            if p.returncode != 0:
+                raise core.MachineryError("fresh-order worker failed: %s" % out[-2000:])
+            res = json.loads(out)
+            ctx.evaluations += res["n"]
+            ctx.traces += res["n"]
+            ctx.distinct_count += res["n"]
+            for case, fails in res["bad"]:
+                for f in fails:
+                    ctx.fail(case, "fresh interpreter in which %s nodes were validated first: %s" % (order, f), "corrupt-write")
+    for fmt, first, mine in jobs:
+        while len(running) >= core.NCPU:
+            reap(False)
+            import time
+            time.sleep(0.05)
+        fd, path = tempfile.mkstemp(prefix="verif-c06-", suffix=".json")
+        os.close(fd)
+        with open(path, "w") as fh:
+            json.dump({"fmt": fmt, "first": first, "cases": mine}, fh)
+        env = dict(os.environ)
+        env["PYTHONPATH"] = os.pathsep.join([core.VERIF, core.REPO])
+        running.append((first, path, subprocess.Popen([core.PY, "-m", "harness.c06", path], cwd=core.VERIF, env=env,
+                                                      stdout=subprocess.PIPE, text=True)))
+    while running:
+        reap(True)
+
+
+if __name__ == "__main__":
+    import json
+    import sys
+    core.import_repo()
+    from . import samples
+    job = json.load(open(sys.argv[1]))
+    # first act of this interpreter: validate the nodes of one kind, then all nodes, of every shape of the format
+    built = [K.nodes(job["fmt"], samples.build(job["fmt"], shape)) for shape in range(samples.NSHAPES[job["fmt"]])]
+    for only_first in (True, False):
+        for ns in built:
+            for kinds, label, n in ns:
+                if only_first and job["first"] not in kinds:
+                    continue
+                try:
+                    n.validate()
+                except Exception:
+                    pass
+    bad = []
+    for c in job["cases"]:
+        f = K.eval_write(c)
+        if f:
+            bad.append((c, f))
+    print(json.dumps({"n": len(job["cases"]), "bad": bad}))
